@@ -183,4 +183,23 @@ theorem mem_unresolvedOf (prov : List (α × Nat)) (t : Tgt α) (q : α) :
     q ∈ (depsOf prov t).2 ↔ q ∈ t.ins ∧ alook q prov = none := by
   simp [depsOf, depStepG_unres_spec]
 
+theorem depFn_map (ts : List (Tgt α)) (f : Tgt α → List Nat) (hid : ∀ t ∈ ts, ∀ u ∈ ts, t.id = u.id → t = u)
+    (b : Tgt α) (hb : b ∈ ts) : depFn (ts.map (fun t => (t.id, f t))) b.id = f b := by
+  induction ts with
+  | nil => simp at hb
+  | cons t rest ih =>
+    simp only [List.map_cons, depFn, alook]
+    split
+    · rename_i heq
+      have := hid t (by simp) b hb heq
+      subst this; simp
+    · rename_i hne
+      have hb' : b ∈ rest := by
+        simp only [List.mem_cons] at hb
+        rcases hb with hb | hb
+        · subst hb; simp at hne
+        · exact hb
+      exact ih (fun t ht u hu => hid t (List.mem_cons_of_mem _ ht) u (List.mem_cons_of_mem _ hu)) hb'
+
+
 end Gwf
